@@ -26,9 +26,9 @@ func checkC11(c *Ctx) {
 	r.Min("C11.debit-identity", 1)
 	r.Min("C11.commission-form", 4)
 	r.Min("C11.commission-bound", 7)
-	r.Min("C11.convert-truncates", 3)
+	r.Min("C11.convert-truncates", 6)
 	r.Min("C11.credit", 2)
-	r.Min("C11.fail-clean", 2)
+	r.Min("C11.fail-clean", 3)
 
 	isInsert := func(site ssa.CallInstruction) bool {
 		for _, callee := range p.Callees(site) {
@@ -275,6 +275,35 @@ func checkC11(c *Ctx) {
 		}
 	}
 	c.checkUnitsIn("C11.credit", reach, func(f *ssa.Function) bool { return f.Name() == "Handle" || isRoot(f, roots.Msg) })
+
+	// ---- stored parts: each of the three stored amounts is the conversion of its own coin ---------------
+	for _, f := range c.SemanticFuncs(reach) {
+		effs := c.Effects(f)
+		if !hasEff(effs, "bank", "BurnCoins", "") || !hasEff(effs, "store", "Set", "SendToExternalKey") {
+			continue
+		}
+		for _, a := range allocsOfType(f, "SendToExternal") {
+			for _, fld := range []string{"Token", "Fee", "ValCommission"} {
+				for _, v := range ana.FieldStores(a)[fld] {
+					l := p.Leaves(v, amountOpt)
+					nPar := 0
+					for lab := range l.Leaves {
+						if strings.HasPrefix(lab, "param:"+fname(f)+"#") && !strings.HasSuffix(lab, ":ctx") && !strings.HasSuffix(lab, ":chainId") {
+							nPar++
+						}
+					}
+					okP := l.HasOp("Keeper.ConvertToExternalValue") && !l.HasOp("Int.Sub") && !l.HasOp("Int.Add") && !l.HasOp("Coin.Sub") && !l.HasOp("Coin.Add") && !l.Ops["binop:-"] && !l.Ops["binop:+"]
+					r.Check(okP, "C11.convert-truncates", "stored:"+fld+":"+fname(f), c.pos(a), "the stored "+fld+" amount is the truncating conversion of its own coin", "the "+fld+" amount stored for a withdrawal is not the conversion of its own coin alone ("+strings.Join(l.OpList(), ",")+"): fractions of the other parts are moved into it, so the scheduled amount is not the truncated amount")
+				}
+			}
+		}
+	}
+	// a failed event changes no balance: the handler runs on the cached context and is committed only on success
+	for _, f := range sortedFuncs(reach) {
+		if c.isProcessFn(f, "mhub2") {
+			c.checkEventAtomic("C11.fail-clean", f)
+		}
+	}
 
 	// ---- fail-clean -------------------------------------------------------------------------
 	for _, f := range c.SemanticFuncs(reach) {
